@@ -168,8 +168,23 @@ H2(b, p) ==
             /\ y.act \in {"permit", "deny"} /\ y.act # x.act /\ Matches(y, p, grp)
             /\ ~\E k \in DOMAIN TAcl[b.acl] : SameLine(TAcl[b.acl][k], y)
 
+\* known finding, shape H3: x was moved, a line y of the opposite action that matches a common packet and
+\* that the target keeps has not been moved yet and stands on the other side of x than in the target
+\* (x and y keep their relative order from old to new, but x is moved first, across y)
+PosIn(q, a) == IF \E i \in DOMAIN q : SameLine(q[i], a) THEN CHOOSE i \in DOMAIN q : SameLine(q[i], a) ELSE 0
+H3(b, p) ==
+  LET c == CurAcl(b.if, b.dir) IN
+  /\ c # "" /\ c \in DOMAIN acl
+  /\ \E x \in moved : /\ Matches(x, p, grp) /\ PosIn(acl[c], x) > 0 /\ PosIn(TAcl[b.acl], x) > 0
+       /\ \E j \in DOMAIN acl[c] : LET y == acl[c][j] IN
+            /\ y.act \in {"permit", "deny"} /\ y.act # x.act /\ Matches(y, p, grp)
+            /\ PosIn(TAcl[b.acl], y) > 0 /\ [y EXCEPT !.log = ""] \notin moved
+            /\ (j < PosIn(acl[c], x)) # (PosIn(TAcl[b.acl], y) < PosIn(TAcl[b.acl], x))
+
 AclUnsafe   == \E b \in SafePairs : Unsafe(b) # {}
-AclUnsafeKF == \A b \in SafePairs : \A p \in Unsafe(b) : H2(b, p)
+AclUnsafeKF == IF \A b \in SafePairs : \A p \in Unsafe(b) : H2(b, p) THEN "H2"
+               ELSE IF \A b \in SafePairs : \A p \in Unsafe(b) : H2(b, p) \/ H3(b, p) THEN "H3"
+               ELSE ""
 
 RouteUnsafe ==
   \E f \in TFams : \E r \in DRoute : /\ r.fam = f /\ (\E q \in TRoute : q.fam = f /\ q.dst = r.dst)
@@ -191,7 +206,7 @@ Mon ==
   /\ Chk(~(err # "" /\ errl = l), "C08", err, "")
   /\ Chk(LastEv.ev = "Init" \/ FrameViol = "", "C07", FrameViol,
          IF KF_SharedGroupEdit THEN "SharedGroupEdit" ELSE "")
-  /\ Chk(~(CompleteEntry /\ I0.safe /\ AclUnsafe), "C14", "access-list", IF AclUnsafeKF THEN "H2" ELSE "")
+  /\ Chk(~(CompleteEntry /\ I0.safe /\ AclUnsafe), "C14", "access-list", AclUnsafeKF)
   /\ Chk(~(CompleteEntry /\ I0.safe /\ RouteUnsafe), "C14", "route", "")
   /\ Chk(LastEv.ev \in {"Resume", "Done"} => Post(LastEv.post), "HARNESS", "post state of replica differs", "")
   /\ Chk(LastEv.ev = "Done" /\ IsMerge => MergeOK, "C18",
